@@ -27,7 +27,9 @@
        cleared, and any number of Asserts before the fetch give one notification;
      * Clear returns false only if the waker was not asserted at some moment of the call;
      * a non-blocking Fetch reports nothing only if at some moment of the call no attached waker had a
-       completed unconsumed assertion (asserted, and no Assert of it still in progress); a blocking Fetch
+       completed unconsumed assertion (STRICT: some Assert call of it has returned and nothing consumed it
+       since); known finding F25 (cfg constant TolerateF25) tolerates exactly one shape of failure of that
+       clause: every such waker still had another Assert call in progress at that moment; a blocking Fetch
        never reports nothing;
      * the sleeper is never parked while no waker call is in progress and an attached waker is asserted
        (or Done is waiting): the lost wake-up as a STATE; only blocking calls park;
